@@ -38,6 +38,7 @@ type Spec struct {
 	MaxItems     int                   `json:"max_items"`
 	Pure         []string              `json:"pure"`
 	Validate     int                   `json:"validate_samples"`
+	MaxPreempts  *int                  `json:"max_preempts"`
 	Rule         string                `json:"rule"`
 }
 
@@ -238,6 +239,9 @@ func runCheck(specPath, tier string) int {
 		eng.maxDecisions = spec.MaxDecisions
 	}
 	eng.maxItems = spec.MaxItems
+	if spec.MaxPreempts != nil {
+		maxPreempts = *spec.MaxPreempts
+	}
 	if *flagMaxItems > 0 {
 		eng.maxItems = *flagMaxItems
 	}
